@@ -68,7 +68,7 @@ class Software:
             other = '{}{}'.format(other.version, other.patch or '')
         else:
             other = str(other)
-        mx = re.match(r'^([\d\.]+\d+)(.*)$', other)
+        mx = re.match(r'^([\d\.]*\d)(.*)$', other)
         if mx is not None:
             oversion, opatch = mx.group(1), mx.group(2).strip()
         else:
